@@ -34,7 +34,7 @@ def check(run):
         accset = set(acc[e])
         rej = [t for t, _ in U[e] if t not in accset]
         wit = rnd.sample(acc[e], min(12, len(acc[e])))
-        texts = rnd.sample(acc[e], min(nv, len(acc[e]))) + rnd.sample(rej, min(len(rej), nv // 6))
+        texts = vlib.stratified(acc[e], nv, rnd) + rnd.sample(rej, min(len(rej), nv // 6))
         for t in texts:
             jobs.append({"k": "roundtrip", "eco": e, "kind": "v", "text": t, "witness": wit, "pads": rnd.sample(nonempty, npad)})
         rs = rtexts[e]
